@@ -63,13 +63,21 @@ def mk_trace(module, qualname, payload=0, bad=False):
         if (len(module) + payload) % 3 == 2:
             return CallTrace(fn(module, qualname), {"ok": int}, None, at["x"])
         return CallTrace(fn(module, qualname), at, None, None)
+    if payload >= 1000:
+        # traces of one (generator) function that agree in arguments and return type and differ only in what was yielded
+        return CallTrace(fn(module, qualname), {"pY": int}, None, _YIELDS[payload % len(_YIELDS)])
     arg_types = {f"p{payload}": int}
     ret = [None, int, type(None)][payload % 3]
     return CallTrace(fn(module, qualname), arg_types, ret, None)
 
 
+_YIELDS = [int, str, bytes, type(None)]
+
+
 def expected_row(module, qualname, payload):
     """Independent of monkeytype.encoding: what identifies the row (module, qualname, payload name)."""
+    if payload >= 1000:
+        return (module, qualname, "pY:" + _YIELDS[payload % len(_YIELDS)].__qualname__)
     return (module, qualname, f"p{payload}")
 
 
@@ -79,7 +87,11 @@ def row_key(r):
     names = sorted(arg)
     mod = r[0] if isinstance(r, tuple) else r.module
     qn = r[1] if isinstance(r, tuple) else r.qualname
-    return (mod, qn, names[0] if names else "")
+    name = names[0] if names else ""
+    if name == "pY":
+        y = r[3] if isinstance(r, tuple) else r.yield_type
+        name += ":" + (json.loads(y)["qualname"] if y else "None-absent")
+    return (mod, qn, name)
 
 
 class Model:
@@ -157,7 +169,8 @@ BATCHES = [
     [("m", "Foo.bar", 0, False), ("m", "foo", 0, False), ("M", "my_func", 0, False), ("m", "my_func", 1, False)],
     [("m", "a%b", 0, False), ("m", "aXYb", 0, False), ("m2", "Foo.baz", 0, False), ("m", "my", 0, False), ("m", "a_b", 0, False),
      ("m", "Box[int].get", 0, False), ("m", "Boxi", 0, False), ("m", "is_ok?", 0, False), ("m", "is_okay", 0, False), ("m", "a*b", 0, False), ("m", "a.b", 0, False)],
-    [("m", "my_func", 0, False), ("m", "x", 0, True), ("m", "Foo.baz", 0, False), ("m", "my_func", 0, False), ("M", "y", 0, True)],
+    [("m", "my_func", 0, False), ("m", "x", 0, True), ("m", "Foo.baz", 0, False), ("m", "my_func", 0, False), ("M", "y", 0, True),
+     ("m", "gen_fn", 1000, False), ("m", "gen_fn", 1001, False), ("m2", "gen_fn", 1000, False), ("m", "gen_fn", 1003, False)],
 ]
 
 
@@ -204,7 +217,7 @@ def run_history(res, d, ops, tag, queries=None):
             check_queries(res, second, model, (queries or ALL_QUERIES)[::7], list(ctx) + [["via-second-connection"]])
     # independent connection: raw distinct rows == model
     conn = sqlite3.connect(path)
-    raw = {row_key(r) for r in conn.execute("SELECT module, qualname, arg_types FROM monkeytype_call_traces")}
+    raw = {row_key(r) for r in conn.execute("SELECT module, qualname, arg_types, yield_type FROM monkeytype_call_traces")}
     ok = conn.execute("PRAGMA integrity_check").fetchone()[0]
     conn.close()
     if raw != model.rows:
@@ -222,7 +235,7 @@ def gen_batch(rng):
     n = rng.choice([0, 1, 2, 3, 5, 8])
     out = []
     for _ in range(n):
-        out.append((rng.choice(MODULES), rng.choice(QUALNAMES), rng.choice([0, 0, 1, 2]), rng.random() < 0.12))
+        out.append((rng.choice(MODULES), rng.choice(QUALNAMES), rng.choice([0, 0, 1, 2, 1000, 1001, 1002]), rng.random() < 0.12))
     return out
 
 
